@@ -384,6 +384,8 @@ class Interp:
                     cell, path = Cell(r), ()
                 elif isinstance(r, Agg) and r.kind == 'Box':
                     cell, path = r.fields[0], ()
+                elif isinstance(r, Opaque) and r.tag == 'const':
+                    cell, path = Cell(Opaque('extern-static', r.parts)), ()     # `*{allocN: *const T}`: an extern static
                 else:
                     raise Unsupported('deref of %r' % (r,))
             elif t == 'field':
@@ -528,6 +530,11 @@ class Interp:
         if t == 'str' or t == 'bytes':
             obj = Agg('bytes', [IntV(8, b) for b in c[1]])
             return SliceRef(Cell(obj), (), 0, len(c[1]))
+        if t == 'calloc':
+            data = mir.ALLOCS.get(c[1])
+            if data is None or len(data) < c[2] or any(b is None for b in data[:c[2]]):
+                raise Unsupported('constant allocation %s not found in the MIR dump' % c[1])
+            return SliceRef(Cell(Agg('bytes', [IntV(8, b) for b in data[:c[2]]])), (), 0, c[2])
         if t == 'promoted':
             pf = self.by_name.get(c[2])
             if pf is None:
@@ -560,6 +567,10 @@ class Interp:
                         break
             if cf is not None:
                 return self.call_fn(cf, [])
+            ec = getattr(self, 'extern_consts', None)
+            if ec and segs[-1] in ec and (len(segs) == 1 or segs[-2] == 'libc'):
+                w, val, sg = ec[segs[-1]]
+                return IntV(w, val, sg)
             return FnRef(p)
         if t == 'float':
             return Opaque('float', (c[1],))
